@@ -13,8 +13,8 @@
 #include <unistd.h>
 #include "ms_sched.h"
 
-enum { OP_NONE = 0, OP_START, OP_LOCK, OP_UNLOCK, OP_WAIT, OP_REACQ, OP_BCAST, OP_CREATE, OP_JOIN, OP_EXIT, OP_SIGNAL, OP_WOKEN };
-static const char* OPN[] = {"none", "start", "lock", "unlock", "cond_wait", "reacquire", "broadcast", "create", "join", "exit", "signal", "woken-by-signal"};
+enum { OP_NONE = 0, OP_START, OP_LOCK, OP_UNLOCK, OP_WAIT, OP_REACQ, OP_BCAST, OP_CREATE, OP_JOIN, OP_EXIT, OP_SIGNAL, OP_WOKEN, OP_SPURIOUS };
+static const char* OPN[] = {"none", "start", "lock", "unlock", "cond_wait", "reacquire", "broadcast", "create", "join", "exit", "signal", "woken-by-signal", "spurious-wakeup"};
 const char* ms_opname(int op) { return OPN[op]; }
 enum { ST_FREE = 0, ST_RUNNABLE, ST_CONDBLOCKED, ST_FINISHED };
 
@@ -25,6 +25,7 @@ static struct { const void* addr; unsigned waiters; } C[8]; static int nC = 0;
 static const int* g_prefix; static int g_nprefix, g_pos, g_fd, g_steps, g_limit;
 static uint64_t (*g_state_cb)(void);
 static ms_rec g_rec[MS_MAXREC]; static int g_nrec;
+static int g_spurious_budget = 0;   /* how many spurious returns from cond_wait the scheduler may still inject (POSIX allows them) */
 static int g_choice_kind = 0;   /* 0: which thread runs next, 1: which waiter a signal wakes (distinguishes the two choice points of one signal) */
 
 static int mtx(const void* a) { for (int i = 0; i < nM; i++) if (M[i].addr == a) return i; M[nM].addr = a; M[nM].owner = -1; return nM++; }
@@ -37,7 +38,7 @@ static uint64_t sched_state(void) {
   for (int i = 0; i < nM; i++) h = mix(h, (uint64_t)(M[i].owner + 2));
   for (int i = 0; i < nC; i++) h = mix(h, C[i].waiters);
   /* which thread is running is deliberately not part of the state: the set of enabled operations, hence the futures, do not depend on it */
-  h = mix(h, (uint64_t)g_choice_kind);
+  h = mix(h, (uint64_t)g_choice_kind); h = mix(h, (uint64_t)g_spurious_budget);
   if (g_state_cb) h = mix(h, g_state_cb());
   return h;
 }
@@ -57,10 +58,13 @@ static void finish(int outcome) {
 }
 /* pick the thread that performs its pending operation next; the caller has set its own pending op (or is blocked/finished) */
 static int pick(void) {
-  uint8_t en[MS_MAXT]; int n = 0; int running_en = enabled(cur);
+  uint8_t en[MS_MAXT * 2]; int n = 0; int running_en = enabled(cur);
   if (running_en) en[n++] = cur;
   for (int i = 0; i < nthr; i++) if (i != cur && enabled(i)) en[n++] = i;
-  if (n == 0) {
+  int nreal = n;
+  /* a spurious wake-up of a thread blocked in cond_wait is one more thing that may happen next (listed last, never the default) */
+  if (g_spurious_budget > 0 && nreal > 0) for (int i = 0; i < nthr; i++) if (T[i].status == ST_CONDBLOCKED) en[n++] = 0x80 | i;
+  if (nreal == 0) {
     int unfinished = 0; for (int i = 0; i < nthr; i++) if (T[i].status != ST_FINISHED) unfinished = 1;
     if (unfinished) { finish(MS_DEADLOCK); _exit(0); }
     return -1;
@@ -70,7 +74,12 @@ static int pick(void) {
   if (n >= 2) {
     if (g_pos < g_nprefix) { idx = g_prefix[g_pos]; if (idx < 0 || idx >= n) { finish(MS_DIVERGED); _exit(3); } }
     g_pos++;
-    if (g_nrec < MS_MAXREC) { ms_rec* r = &g_rec[g_nrec++]; r->state = sched_state(); r->nen = n; memcpy(r->en, en, n); r->chosen = idx; r->running_enabled = running_en; for (int k = 0; k < n; k++) r->ops[k] = T[en[k]].op; }
+    if (g_nrec < MS_MAXREC) { ms_rec* r = &g_rec[g_nrec++]; r->state = sched_state(); r->nen = n > MS_MAXT ? MS_MAXT : n; memcpy(r->en, en, r->nen); r->chosen = idx; r->running_enabled = running_en; for (int k = 0; k < r->nen; k++) r->ops[k] = (en[k] & 0x80) ? OP_SPURIOUS : T[en[k]].op; }
+  }
+  if (en[idx] & 0x80) {   /* inject the spurious return, then decide again who runs */
+    int k = en[idx] & 0x7f; g_spurious_budget--;
+    T[k].status = ST_RUNNABLE; for (int c = 0; c < nC; c++) C[c].waiters &= ~(1u << k);
+    return pick();
   }
   return en[idx];
 }
@@ -84,12 +93,13 @@ static void point(int op, const void* obj, const void* site) {
 /* this thread cannot continue (blocked in cond_wait): hand the CPU to someone else and sleep */
 static void yield_blocked(void) {
   int me = cur; int next = pick();
-  if (next == me || next < 0) { finish(MS_DEADLOCK); _exit(0); }
+  if (next < 0) { finish(MS_DEADLOCK); _exit(0); }
+  if (next == me) return;   /* woken spuriously and chosen to continue right away */
   cur = next; sem_post(&T[next].sem); sem_wait(&T[me].sem);
 }
 
 void ms_begin(const int* prefix, int nprefix, int out_fd, uint64_t (*state_cb)(void), int step_limit) {
-  memset(T, 0, sizeof T); nthr = 1; cur = 0; nM = nC = 0; g_prefix = prefix; g_nprefix = nprefix; g_pos = 0; g_fd = out_fd; g_steps = 0; g_limit = step_limit; g_state_cb = state_cb; g_nrec = 0;
+  memset(T, 0, sizeof T); nthr = 1; cur = 0; nM = nC = 0; g_prefix = prefix; g_nprefix = nprefix; g_pos = 0; g_fd = out_fd; g_steps = 0; g_limit = step_limit; g_state_cb = state_cb; g_nrec = 0; g_choice_kind = 0; { const char* e = getenv("MS_SPURIOUS"); g_spurious_budget = e ? atoi(e) : 0; }
   T[0].status = ST_RUNNABLE; sem_init(&T[0].sem, 0, 0);
 }
 void ms_end(uint64_t final_hash) { (void)final_hash; g_state_cb = NULL; T[0].status = ST_FINISHED; finish(MS_COMPLETE); }
